@@ -10,6 +10,7 @@ package main
 // accounting is replayed by the Lean model LemoModel.Evm (driver c16).
 
 import (
+	"encoding/base64"
 	"encoding/hex"
 	"fmt"
 	"math/big"
@@ -42,6 +43,21 @@ type c16World struct {
 	empties   []common.Address
 	txHash    common.Hash
 	watch     []common.Address
+	// asset scenario (EVM.TransferAssetTx)
+	assetCode  common.Hash // divisible asset, issuer = issuer
+	assetCode2 common.Hash // indivisible asset
+	issuer     common.Address
+	holder     common.Address // owns equity of both assets
+	longBudget int            // how many over-long traces may still be replayed in full
+}
+
+type c16AssetDB struct{ w *c16World }
+
+func (d c16AssetDB) GetAssetCode(code common.Hash) (common.Address, error) {
+	if code == d.w.assetCode || code == d.w.assetCode2 {
+		return d.w.issuer, nil
+	}
+	return common.Address{}, fmt.Errorf("asset code not found")
 }
 
 func c16Addr(n int64) common.Address { return common.BigToAddress(big.NewInt(n)) }
@@ -76,6 +92,22 @@ func newC16World() *c16World {
 	am.GetAccount(w.gOK).SetCode(types.Code{opPUSH1, 5, opPUSH1, 1, opSSTORE, opSTOP})
 	am.GetAccount(w.gFail).SetBalance(big.NewInt(10))
 	am.GetAccount(w.gFail).SetCode(types.Code{opPUSH1, 5, opPUSH1, 1, opSSTORE, opINVALID})
+	// assets: issuer holds the asset codes, holder owns equity of both
+	w.issuer = c16Addr(0x155e01)
+	w.holder = c16Addr(0x401de1)
+	w.assetCode = common.HexToHash("0xa55e701")
+	w.assetCode2 = common.HexToHash("0xa55e702")
+	am.GetAccount(w.issuer).SetBalance(big.NewInt(1))
+	am.GetAccount(w.holder).SetBalance(big.NewInt(1000))
+	for i, code := range []common.Hash{w.assetCode, w.assetCode2} {
+		if err := am.GetAccount(w.issuer).SetAssetCode(code, &types.Asset{Category: 1, IsDivisible: i == 0, AssetCode: code, Decimal: 0,
+			TotalSupply: big.NewInt(100000), IsReplenishable: true, Issuer: w.issuer, Profile: types.Profile{}}); err != nil {
+			panic(err)
+		}
+		if err := am.GetAccount(w.holder).SetEquityState(code, &types.AssetEquity{AssetCode: code, AssetId: code, Equity: big.NewInt(5000)}); err != nil {
+			panic(err)
+		}
+	}
 	if err := am.Finalise(); err != nil {
 		panic(err)
 	}
@@ -102,7 +134,7 @@ func newC16World() *c16World {
 	}
 	w.genesis = hash
 
-	w.watch = append(w.watch, w.eoa, w.poor, w.rewardMgr, w.gOK, w.gFail)
+	w.watch = append(w.watch, w.eoa, w.poor, w.rewardMgr, w.gOK, w.gFail, w.issuer, w.holder, common.Address{})
 	w.watch = append(w.watch, w.slots...)
 	w.watch = append(w.watch, w.empties...)
 	for i := 1; i <= 9; i++ {
@@ -140,6 +172,16 @@ func (w *c16World) dump(am *account.Manager) string {
 				fmt.Fprintf(&sb, ",%d=%x/%v", i, v, err != nil)
 			}
 		}
+		for i, code := range []common.Hash{w.assetCode, w.assetCode2} {
+			if eq, err := acc.GetEquityState(code); err == nil && eq != nil && eq.Equity != nil {
+				fmt.Fprintf(&sb, ",q%d=%s", i, eq.Equity)
+			}
+			if a == w.issuer {
+				if ts, err := acc.GetAssetCodeTotalSupply(code); err == nil && ts != nil {
+					fmt.Fprintf(&sb, ",t%d=%s", i, ts)
+				}
+			}
+		}
 		sb.WriteByte(';')
 	}
 	return sb.String()
@@ -156,8 +198,11 @@ type c16Case struct {
 	Value  uint64            `json:"value"`
 	CallerS string           `json:"caller"`
 	TargetS string           `json:"target"`
+	Prelude bool             `json:"prelude"` // an earlier successful call in the same block (its changes must survive)
+	AssetTx string           `json:"assetTx"` // entry "asset": the TransferAsset JSON
 	codes  map[common.Address][]byte
 	input  []byte
+	assetTx []byte
 	maxTrace int
 }
 
@@ -167,6 +212,7 @@ func (cs *c16Case) fill() {
 		cs.Codes[a.Hex()] = hex.EncodeToString(c)
 	}
 	cs.Input = hex.EncodeToString(cs.input)
+	cs.AssetTx = string(cs.assetTx)
 	cs.CallerS = cs.Caller.Hex()
 	cs.TargetS = cs.Target.Hex()
 }
@@ -183,6 +229,9 @@ type c16Result struct {
 	prefixOK bool // the change logs that existed before the call are still there, untouched
 	newLogs  []string
 	created  common.Address
+	nonVM    string // TransferAssetTx: the non-VM error
+	newTypes []int  // ChangeLogTypes of the logs the call left behind
+	am       *account.Manager
 }
 
 var c16Digits = regexp.MustCompile(`[0-9]+`)
@@ -272,7 +321,17 @@ func (w *c16World) run(cs *c16Case, tr *c16Tracer) (res c16Result) {
 		cfg.Debug = true
 		cfg.Tracer = tr
 	}
+	if cs.Prelude {
+		// "an earlier transaction of the same block": value to a contract that writes storage, plus direct writes
+		pe := w.newEVM(am, vm.Config{})
+		if _, _, err := pe.Call(vm.AccountRef(w.eoa), w.gOK, nil, 100000, big.NewInt(3)); err != nil {
+			panic("prelude failed: " + err.Error())
+		}
+		am.GetAccount(w.slots[1]).SetStorageState(common.BigToHash(big.NewInt(6)), []byte{0x66})
+		am.GetAccount(w.slots[0]).SetBalance(big.NewInt(1234))
+	}
 	evm := w.newEVM(am, cfg)
+	res.am = am
 	res.pre = w.dump(am)
 	before := append([]*types.ChangeLog{}, am.GetChangeLogs()...)
 	res.logsPre = len(before)
@@ -297,6 +356,12 @@ func (w *c16World) run(cs *c16Case, tr *c16Tracer) (res c16Result) {
 			ret, res.gasLeft, err = evm.StaticCall(vm.AccountRef(cs.Caller), cs.Target, cs.input, cs.Gas)
 		case "create":
 			ret, res.created, res.gasLeft, err = evm.Create(vm.AccountRef(cs.Caller), cs.input, cs.Gas, value)
+		case "asset":
+			var nonVM error
+			ret, res.gasLeft, nonVM, err = evm.TransferAssetTx(vm.AccountRef(cs.Caller), cs.Target, cs.Gas, cs.assetTx, c16AssetDB{w})
+			if nonVM != nil {
+				res.nonVM = c16Slug(nonVM.Error())
+			}
 		}
 		if len(ret) > 64 {
 			ret = append(append([]byte{}, ret[:32]...), crypto.Keccak256(ret)...)
@@ -323,6 +388,7 @@ func (w *c16World) run(cs *c16Case, tr *c16Tracer) (res c16Result) {
 		}
 		for _, l := range after[len(before):] {
 			res.newLogs = append(res.newLogs, fmt.Sprintf("%d@%x", l.LogType, l.Address[len(l.Address)-3:]))
+			res.newTypes = append(res.newTypes, int(l.LogType))
 		}
 	}
 	if tr != nil {
@@ -332,7 +398,7 @@ func (w *c16World) run(cs *c16Case, tr *c16Tracer) (res c16Result) {
 }
 
 func (r c16Result) key() string {
-	return fmt.Sprintf("ret=%s gas=%d err=%s panic=%s post=%s logs=%d %v", r.ret, r.gasLeft, r.err, c16Slug(r.panicMsg), r.post, r.logsPost, r.newLogs)
+	return fmt.Sprintf("ret=%s gas=%d err=%s nonvm=%s panic=%s post=%s logs=%d %v", r.ret, r.gasLeft, r.err, r.nonVM, c16Slug(r.panicMsg), r.post, r.logsPost, r.newLogs)
 }
 
 func (w *c16World) genCase(c *Ctx, g *c16Gen, iter int) *c16Case {
@@ -424,8 +490,46 @@ func (w *c16World) genCase(c *Ctx, g *c16Gen, iter int) *c16Case {
 		cs.Entry = "static"
 		cs.Value = 0
 	}
+	if r.Intn(9) == 0 && cs.Entry == "call" && cs.Kind != "self-recursive" {
+		// the same contracts entered through EVM.TransferAssetTx
+		cs.Entry = "asset"
+		cs.Kind = "asset:" + cs.Kind
+		cs.Value = 0
+		cs.Caller = w.holder
+		cs.assetTx = w.assetTxData(r, cs.input)
+		switch r.Intn(8) {
+		case 0:
+			cs.Target = common.Address{} // destroy the asset
+		case 1:
+			cs.Target = w.holder // to == from
+		case 2:
+			cs.Target = w.empties[0]
+		case 3:
+			cs.Caller = w.eoa // owns no equity
+		}
+	}
+	cs.Prelude = r.Intn(2) == 0
 	cs.fill()
 	return cs
+}
+
+// assetTxData: the JSON payload of a TransferAssetTx (mostly valid)
+func (w *c16World) assetTxData(r interface{ Intn(int) int }, input []byte) []byte {
+	id := w.assetCode
+	switch r.Intn(6) {
+	case 0:
+		id = w.assetCode2
+	case 1:
+		id = common.HexToHash("0xdead")
+	}
+	amount := []string{"0", "1", "77", "5000", "5001", "100000000"}[r.Intn(6)]
+	switch r.Intn(12) {
+	case 0:
+		return []byte(`{"assetId":"` + id.Hex() + `"}`)
+	case 1:
+		return []byte(`not json`)
+	}
+	return []byte(fmt.Sprintf(`{"assetId":"%s","transferAmount":"%s","input":"%s"}`, id.Hex(), amount, base64.StdEncoding.EncodeToString(input)))
 }
 
 func c16PrecompileInput(r interface {
@@ -483,6 +587,10 @@ func c16(c *Ctx) {
 
 	// the opcode table as the code derives it (+ baked-table regeneration when asked)
 	c16EmitTable(c, w)
+	w.longBudget = 12
+	if c.Tier == "thorough" {
+		w.longBudget = 120
+	}
 
 	for _, cs := range w.fixedCases(g) {
 		c16RunCase(c, w, cs)
@@ -548,6 +656,45 @@ func (w *c16World) fixedCases(g *c16Gen) []*c16Case {
 	pc.Target = common.BytesToAddress([]byte{9})
 	pc.input = []byte(`{"term":"0x2","value":"835732000000000000000000"}`)
 	out = append(out, pc)
+	// a static call whose code makes a zero-value CALL to a failing contract: the platform's TopicRunFail
+	// event survives the (successful) static call
+	sf := &asm{}
+	sf.push(0).push(0).push(0).push(0).push(0).pushAddr(w.gFail).push(50000).op(opCALL, opPOP, opSTOP)
+	sfc := mk("fixed:static-inner-call-fails", "static", 200000, 0, map[common.Address][]byte{w.slots[0]: sf.b})
+	out = append(out, sfc)
+	// CREATE recursion down to the depth limit: the init code copies itself to memory and CREATEs it
+	cr := &asm{}
+	cr.op(0x38 /*CODESIZE*/).push(0).push(0).op(opCODECOPY)
+	cr.op(0x38).push(0).push(0).op(opCREATE, opPOP, opSTOP)
+	crc := mk("fixed:create-recursive", "create", 1<<53, 0, nil)
+	crc.input = cr.b
+	crc.maxTrace = 14000
+	out = append(out, crc)
+	// MaxCodeSize boundary: exactly 24576 bytes is stored, 24577 is refused
+	for _, n := range []uint64{24576, 24577} {
+		ia := &asm{}
+		ia.push(n).push(0).op(opRETURN)
+		ic := mk("fixed:create-maxcodesize", "create", 10000000, 0, nil)
+		ic.input = ia.b
+		out = append(out, ic)
+		ic2 := mk("fixed:create-maxcodesize", "create", 4000000, 0, nil) // not enough for the deposit (200 gas/byte)
+		ic2.input = ia.b
+		out = append(out, ic2)
+	}
+	// EVM.TransferAssetTx: recipient code succeeds / fails / reverts; destroy; indivisible; bad payloads
+	for i, tgt := range []common.Address{w.gOK, w.gFail, w.slots[0], w.empties[0], {}, w.holder} {
+		for _, amt := range []string{"0", "77", "5001"} {
+			ac := mk("fixed:asset", "asset", 200000, 0, map[common.Address][]byte{w.slots[0]: {opPUSH1, 9, opPUSH1, 2, opSSTORE, opPUSH1, 0, opPUSH1, 0, opREVERT}})
+			ac.Caller = w.holder
+			ac.Target = tgt
+			code := w.assetCode
+			if i%2 == 1 {
+				code = w.assetCode2
+			}
+			ac.assetTx = []byte(fmt.Sprintf(`{"assetId":"%s","transferAmount":"%s","input":""}`, code.Hex(), amt))
+			out = append(out, ac)
+		}
+	}
 	// depth limit
 	for _, op := range []byte{opCALL, opDELEGATECALL} {
 		d := mk("fixed:self-recursive", "call", 1<<52, 0, map[common.Address][]byte{w.slots[0]: g.selfRecursive(op, w.slots[0], op == opCALL)})
@@ -568,11 +715,11 @@ func c16RunCase(c *Ctx, w *c16World, cs *c16Case) {
 	c.Count("entry=" + cs.Entry)
 	r1 := w.run(cs, nil)
 	r2 := w.run(cs, nil)
-	tr := &c16Tracer{max: cs.maxTrace}
+	tr := &c16Tracer{max: 20000}
 	r3 := w.run(cs, tr)
 	c.Count("result=" + strings.SplitN(r1.err, ":", 2)[0])
 	if os.Getenv("VERIF_C16_DEBUG") != "" {
-		fmt.Fprintf(os.Stderr, "#%s %s gas=%d value=%d -> err=%s left=%d panic=%q logs=%d->%d (+%d) steps=%d maxdepth=%d\n", cs.Kind, cs.Entry, cs.Gas, cs.Value, r1.err, r1.gasLeft, r1.panicMsg, r1.logsPre, r1.logsPost, len(r1.newLogs), tr.nsteps, tr.maxDepth)
+		fmt.Fprintf(os.Stderr, "#%s %s gas=%d value=%d -> err=%s/%s left=%d panic=%q logs=%d->%d (+%d) steps=%d maxdepth=%d\n", cs.Kind, cs.Entry, cs.Gas, cs.Value, r1.err, r1.nonVM, r1.gasLeft, r1.panicMsg, r1.logsPre, r1.logsPost, len(r1.newLogs), tr.nsteps, tr.maxDepth)
 	}
 
 	// (O1) no panic
@@ -591,11 +738,26 @@ func c16RunCase(c *Ctx, w *c16World, cs *c16Case) {
 	if r1.gasLeft > cs.Gas {
 		c.Fail("c16/gas-exceeds-supplied", fmt.Sprintf("gas left %d > supplied %d", r1.gasLeft, cs.Gas), cs)
 	}
+	// (O4') TransferAssetTx: any failure (VM or not) leaves the state, equities included, as before
+	if cs.Entry == "asset" {
+		c.Count("asset:vm=" + strings.SplitN(r1.err, ":", 2)[0] + "/nonvm=" + r1.nonVM)
+		if r1.err != "nil" || r1.nonVM != "" {
+			if r1.pre != r1.post {
+				c.Fail(c16FailSig(r1.pre, r1.post, tr), fmt.Sprintf("TransferAssetTx vmErr=%s err=%s but state differs: %s", r1.err, r1.nonVM, c16Diff(r1.pre, r1.post)), cs)
+			}
+			if len(r1.newLogs) > 0 {
+				c.Fail("c16/asset-failed-left-logs", fmt.Sprintf("TransferAssetTx vmErr=%s err=%s left change logs %v", r1.err, r1.nonVM, r1.newLogs), cs)
+			}
+			if r1.nonVM != "" && r1.gasLeft != cs.Gas {
+				c.Fail("c16/asset-nonvm-error-used-gas", fmt.Sprintf("non-VM error %s but gas %d -> %d", r1.nonVM, cs.Gas, r1.gasLeft), cs)
+			}
+		}
+	}
 	// (O4) failed call leaves the state as before (apart from the platform's failure event)
-	if r1.err != "nil" {
+	if r1.err != "nil" && cs.Entry != "asset" {
 		c.Count("nontrivial:failed-top-level")
 		if r1.pre != r1.post {
-			c.Fail("c16/failed-call-changed-state/"+c16DiffClass(r1.pre, r1.post), fmt.Sprintf("err=%s but state differs: %s", r1.err, c16Diff(r1.pre, r1.post)), cs)
+			c.Fail(c16FailSig(r1.pre, r1.post, tr), fmt.Sprintf("err=%s but state differs: %s", r1.err, c16Diff(r1.pre, r1.post)), cs)
 		}
 		if !r1.prefixOK {
 			c.Fail("c16/failed-call-lost-logs", fmt.Sprintf("err=%s: change logs recorded before the call were removed or replaced (%d -> %d)", r1.err, r1.logsPre, r1.logsPost), cs)
@@ -627,6 +789,17 @@ func c16RunCase(c *Ctx, w *c16World, cs *c16Case) {
 		}
 		if len(r1.newLogs) > 0 {
 			c.Count("static:left-noop-balance-or-event-logs")
+			// do the surviving no-op balance logs / failure events change what the block commits to?
+			if d := w.versionDiff(cs, r1.am); d != "" {
+				c.Count("static:changes-version-root")
+				cause := "balance-noop"
+				for _, t := range r1.newTypes {
+					if t == int(account.AddEventLog) {
+						cause = "fail-event"
+					}
+				}
+				c.Fail("c16/static-changed-version-root/"+cause, "a static call left only no-op balance logs / failure events ("+strings.Join(r1.newLogs, " ")+") but the finalised version records differ from those of the same block without the call: "+d, cs)
+			}
 		}
 	}
 	// (O6) trace-level checks + correspondence lines
@@ -647,6 +820,41 @@ func c16Diff(a, b string) string {
 		out = append(out, "<dump shape differs> "+b)
 	}
 	return strings.Join(out, " | ")
+}
+
+// c16FailSig: root-cause signature of "a failed entry left the state changed".
+//   .../code[/+others]              the code of an account is gone (undoSuicide restores the hash only)
+//   .../after-suicide-undo/<attrs>  other attributes of an account that executed SELFDESTRUCT in a reverted frame
+//   .../<attrs>                     anything else
+func c16FailSig(pre, post string, tr *c16Tracer) string {
+	cls := c16DiffClass(pre, post)
+	parts := strings.Split(cls, "+")
+	hasCode := false
+	var others []string
+	for _, p := range parts {
+		if p == "code" {
+			hasCode = true
+		} else {
+			others = append(others, p)
+		}
+	}
+	if hasCode {
+		if len(others) == 0 {
+			return "c16/failed-call-changed-state/code"
+		}
+		return "c16/failed-call-changed-state/code/+" + strings.Join(others, "+")
+	}
+	x, y := strings.Split(pre, ";"), strings.Split(post, ";")
+	all := len(x) == len(y)
+	for i := 0; all && i < len(x); i++ {
+		if x[i] != y[i] && !tr.destructed[strings.SplitN(x[i], ":", 2)[0]] {
+			all = false
+		}
+	}
+	if all && len(tr.destructed) > 0 {
+		return "c16/failed-call-changed-state/after-suicide-undo/" + cls
+	}
+	return "c16/failed-call-changed-state/" + cls
 }
 
 // c16DiffClass names the attributes (balance/code/suicide/storage) that differ between two dumps.
@@ -685,6 +893,35 @@ func c16DiffClass(a, b string) string {
 		}
 	}
 	return strings.Join(c16SortedKeys(cls), "+")
+}
+
+// versionDiff finalises the manager that executed the case and a manager that only did the set-up,
+// and compares version root and per-account emptiness.
+func (w *c16World) versionDiff(cs *c16Case, after *account.Manager) (diff string) {
+	defer func() {
+		if r := recover(); r != nil {
+			diff = "finalise panicked: " + fmt.Sprint(r)
+		}
+	}()
+	base := *cs
+	base.Entry = "none"
+	rb := w.run(&base, nil)
+	for _, am := range []*account.Manager{rb.am, after} {
+		am.MergeChangeLogs()
+		if err := am.Finalise(); err != nil {
+			return "finalise: " + err.Error()
+		}
+	}
+	var out []string
+	if rb.am.GetVersionRoot() != after.GetVersionRoot() {
+		out = append(out, "version root differs")
+	}
+	for _, a := range w.watch {
+		if rb.am.GetAccount(a).IsEmpty() != after.GetAccount(a).IsEmpty() {
+			out = append(out, fmt.Sprintf("IsEmpty(%x) %v -> %v", a[len(a)-3:], rb.am.GetAccount(a).IsEmpty(), after.GetAccount(a).IsEmpty()))
+		}
+	}
+	return strings.Join(out, "; ")
 }
 
 func c16SortedKeys(m map[string]int) []string {
